@@ -73,18 +73,28 @@ impl Kind {
     }
 }
 
+/// Last command of the subshell body: the subshell then ends with a status that means "killed
+/// by SIGTERM / SIGUSR1" (it re-raises the signal on itself) or with `exit`. The parent may
+/// observe only the exit status: its own traps must not run and it must not be signalled.
+const ENDERS: &[&str] = &["", "s 399", "s 508", "exit 3"];
+
 #[derive(Clone, Debug)]
 struct Case {
     prelude: usize,
     kind: Kind,
     muts: Vec<usize>,
+    ender: usize,
 }
 
 impl Case {
     fn script(&self) -> String {
         let m: Vec<&str> = self.muts.iter().map(|i| MUTATORS[*i].0).collect();
-        let body = format!("snap entry; {}; snap mutated", m.join("; "));
-        format!("{}\nsnap before\n{}\nsnap after\n", PRELUDES[self.prelude], self.kind.wrap(&body))
+        let mut body = format!("snap entry; {}; snap mutated", m.join("; "));
+        if self.ender != 0 {
+            body.push_str("; ");
+            body.push_str(ENDERS[self.ender]);
+        }
+        format!("{}\nsnap before\n{}\nsnap after\ns 0\n", PRELUDES[self.prelude], self.kind.wrap(&body))
     }
     fn setup(&self) -> Setup {
         let mut s = Setup::script(&self.script());
@@ -175,6 +185,11 @@ fn judge(c: &Case, r: &Run) -> Option<(String, String)> {
             ));
         }
     }
+    // 1b. nothing ran in the parent between the two snapshots (e.g. a trap action triggered by
+    // a signal the subshell meant for itself)
+    if let Some(e) = r.trace.iter().find(|e| e.pid == *ppid && !e.text.starts_with("snap ")) {
+        return Some(("parent-ran-command".into(), format!("the parent shell executed `{}` while only the subshell was running", e.text)));
+    }
     // 2. child sees a copy
     let Some((cpid, entry)) = s.get("entry") else {
         return Some(("missing-snapshot".into(), format!("entry snapshot missing; stderr={:?}", r.stderr)));
@@ -260,7 +275,12 @@ pub fn run(tier: Tier) -> i32 {
     for prelude in 0..PRELUDES.len() {
         for kind in KINDS {
             for i in 0..MUTATORS.len() {
-                cases.push(Case { prelude, kind, muts: vec![i] });
+                cases.push(Case { prelude, kind, muts: vec![i], ender: 0 });
+            }
+            for ender in 1..ENDERS.len() {
+                for i in [0usize, 19, 21, 22] {
+                    cases.push(Case { prelude, kind, muts: vec![i], ender });
+                }
             }
             for i in 0..MUTATORS.len() {
                 for j in 0..MUTATORS.len() {
@@ -270,7 +290,7 @@ pub fn run(tier: Tier) -> i32 {
                     if !thorough && (i * 7 + j * 3 + prelude) % 5 != 0 {
                         continue;
                     }
-                    cases.push(Case { prelude, kind, muts: vec![i, j] });
+                    cases.push(Case { prelude, kind, muts: vec![i, j], ender: 0 });
                 }
             }
         }
@@ -339,7 +359,7 @@ pub fn run(tier: Tier) -> i32 {
         "decision_points": points.load(Relaxed),
         "programs_capped": capped.load(Relaxed),
         "mutators": MUTATORS.len(),
-        "explanation": "each program = prelude; snap before; SUBSHELL{snap entry; mutators; snap mutated}; snap after, run under every cooperative schedule of its processes (cap per program reported) and with syscall-tap preemption at deviation bound 1; snapshots serialise variables+attributes, positional parameters, functions, aliases, options, traps, dispositions, signal mask, umask, cwd and the descriptor table (by open-file-description identity) from inside the real shell",
+        "explanation": "each program = prelude; snap before; SUBSHELL{snap entry; mutators; snap mutated[; ender]}; snap after (ender: the subshell ends with a killed-by-signal status 399/508 or exit 3), run under every cooperative schedule of its processes (cap per program reported) and with syscall-tap preemption at deviation bound 1; snapshots serialise variables+attributes, positional parameters, functions, aliases, options, traps, dispositions, signal mask, umask, cwd and the descriptor table (by open-file-description identity) from inside the real shell",
     });
     ctx.finish(cov, &["snapshot probe built-in is trusted", "SIGCHLD's internal handler (installed at the first wait) is excluded from the parent before/after comparison"])
 }
